@@ -117,11 +117,11 @@ def run(ctx):
     ctx.assumptions = ["TLC's evaluation of the specification", "violations located in lookup namespaces are covered by four "
                        "fixed scope cases; for minor versions of one message type the oldest / newest one is also placed in a same-named lookup directory and referred to"]
     quick = ctx.tier == "quick"
-    c02.run_cfg(ctx, "CrossDef", "CrossDef_pairs.cfg", worker, "pairs", mk=lambda blocks: [(b, ctx.seed, 1) for b in blocks])
-    c02.run_cfg(ctx, "CrossDef", "CrossDef_chain3.cfg", worker, "chain3", mk=lambda blocks: [(b, ctx.seed, 1) for b in blocks])
+    c02.run_cfg(ctx, "CrossDef", "CrossDef_pairs.cfg", worker, "pairs", mk=lambda blocks: [(b, ctx.seed, 1) for b in blocks], shuffle=True)
+    c02.run_cfg(ctx, "CrossDef", "CrossDef_chain3.cfg", worker, "chain3", mk=lambda blocks: [(b, ctx.seed, 1) for b in blocks], shuffle=True)
     if not quick:
-        c02.run_cfg(ctx, "CrossDef", "CrossDef_chain4.cfg", worker, "chain4", mk=lambda blocks: [(b, ctx.seed, 1) for b in blocks])
-        c02.run_cfg(ctx, "CrossDef", "CrossDef_triples.cfg", worker, "triples", mk=lambda blocks: [(b, ctx.seed, 60) for b in blocks])
+        c02.run_cfg(ctx, "CrossDef", "CrossDef_chain4.cfg", worker, "chain4", mk=lambda blocks: [(b, ctx.seed, 1) for b in blocks], shuffle=True)
+        c02.run_cfg(ctx, "CrossDef", "CrossDef_triples.cfg", worker, "triples", mk=lambda blocks: [(b, ctx.seed, 60) for b in blocks], shuffle=True)
         ctx.exhaustive = False
     c02.consume(ctx, core.pmap(scope_worker, [0], procs=1), "scope")
     ctx.sample({"set": ["vnd/0.A.1.0.dsdl (message, sealed)", "vnd/5.A.1.1.dsdl (message, sealed)"], "expected": "rejected: port-ID changed under one major version"})
